@@ -255,6 +255,13 @@ def check_case(ctx, out, program, geom, origin, solve=False):
                     out.spec_fail(dict(op='parse', symptom='partition'),
                                   f'{gp} and {gq}: joined={same} but node names {by_grid[gp]!r}, {by_grid[gq]!r}', desc,
                                   program=program, geom=geom); return None
+        # terminal ORDER of every component: (start, end), listed (end, start) when the symbol is reversed
+        for k_, w in zip(c.components, spec['comps']):
+            want = [by_grid[p_] for p_ in w['pts']]
+            if list(k_.nodes) != want:
+                out.spec_fail(canon_of('terminal_order', w, program),
+                              f'{k_.id}: terminals listed {tuple(k_.nodes)}, drawn {tuple(want)} (start→end, reversed: end→start)', desc,
+                              impl=show_circuit(c), program=program, geom=geom); return None
         for t, ns in spec['names'].items():
             gp = next(p for p, cl in spec['cls'].items() if cl == t)
             if by_grid[gp] != ns[0]:
@@ -485,6 +492,18 @@ CORPUS = [
     # sine source given in degrees
     [dict(kind='Vac', name='Vs', vals={'V': 2.0, 'w': 10.0, 'phi': 30.0, 'deg': True, 'sin': True}, rev=False, a=(0, 0), b=(0, 1), place='dir'),
      dict(kind='R', name='R1', vals={'R': 2.0}, a=(0, 1), b=(0, 0), place='endpoints'), dict(kind='gnd', a=(0, 0))],
+    # sine-referenced AC current source given in degrees
+    [dict(kind='Iac', name='Is', vals={'I': 2.0, 'w': 100.0, 'phi': 30.0, 'deg': True, 'sin': True}, rev=False, a=(0, 0), b=(0, 1), place='dir'),
+     dict(kind='R', name='R1', vals={'R': 2.0}, a=(0, 1), b=(0, 0), place='endpoints'), dict(kind='gnd', a=(0, 0))],
+    # reversed passives of every kind and a labelled line ("measurable short") between two different nodes
+    [dict(kind='V', name='V1', vals={'V': 10.0}, rev=False, a=(0, 0), b=(0, 2)),
+     dict(kind='R', name='R1', vals={'R': 2.0}, rev=True, a=(0, 2), b=(1, 2)), dict(kind='C', name='C1', vals={'C': 1e-6}, rev=True, a=(1, 2), b=(1, 0)),
+     dict(kind='sc', name='S', vals={}, rev=False, a=(1, 2), b=(2, 2)), dict(kind='L', name='L1', vals={'L': 1e-3}, rev=True, a=(2, 2), b=(2, 0)),
+     dict(kind='G', name='G1', vals={'G': 0.5}, rev=True, a=(2, 2), b=(3, 2)), dict(kind='Z', name='Z1', vals={'Z': complex(1, 2)}, rev=True, a=(3, 2), b=(3, 0)),
+     dict(kind='lamp', name='H1', vals={'V_ref': 12.0, 'P_ref': 6.0}, rev=True, a=(3, 2), b=(4, 2)),
+     dict(kind='switch', name='K1', vals={'state': 'CLOSED'}, rev=True, a=(4, 2), b=(4, 0)),
+     dict(kind='wire', a=(4, 0), b=(3, 0)), dict(kind='wire', a=(3, 0), b=(2, 0)), dict(kind='wire', a=(2, 0), b=(1, 0)),
+     dict(kind='wire', a=(1, 0), b=(0, 0)), dict(kind='gnd', a=(0, 0))],
     # numerals that collide with a named node
     [dict(kind='R', name='R1', vals={'R': 1.0}, a=(0, 0), b=(1, 0)), dict(kind='R', name='R2', vals={'R': 1.0}, a=(1, 0), b=(2, 0)),
      dict(kind='R', name='R3', vals={'R': 1.0}, a=(2, 0), b=(3, 0)), dict(kind='node', name='2', a=(3, 0)), dict(kind='lnode', name='3', a=(0, 0))],
